@@ -337,6 +337,22 @@ func TestVerifC05App(t *testing.T) {
 			{"webhook: hangs 8s", func(x *fx) bool { x.setMode("r1/webhook/0", mHang); return true }},
 			{"webhook: recoverable errors", func(x *fx) bool { x.setMode("r1/webhook/0", mRecoverable); return true }},
 			{"webhook: ok", func(x *fx) bool { x.setMode("r1/webhook/0", mOK); return true }},
+			{"resolve A, webhook hangs, re-fire A 3s into the in-flight delivery", func(x *fx) bool {
+				if _, ok := x.gt.alerts["A"]; !ok {
+					return false
+				}
+				x.setMode("r1/webhook/0", mHang)
+				x.resolve("A", "1")
+				for i := 0; i < 45 && x.env.inFlight() == 0; i++ {
+					time.Sleep(time.Second)
+				}
+				if x.env.inFlight() == 0 {
+					return true
+				}
+				time.Sleep(3 * time.Second)
+				x.fire("A", "1", time.Hour)
+				return true
+			}},
 			evAdvance(3 * time.Second), evAdvance(10 * time.Second), evAdvance(30 * time.Second), evAdvance(61 * time.Second),
 		}}
 	s.explore(t)
